@@ -703,6 +703,12 @@ func (t *Term) write(sb *strings.Builder, names map[*Term]string) {
 // sub-terms named via define-fun (only those not under a quantifier binder
 // that mentions bound variables).
 func (b *TermBank) Script(asserts []*Term, extraDecls string, getModel bool) string {
+	return b.ScriptWatch(asserts, extraDecls, getModel, nil)
+}
+
+// ScriptWatch additionally evaluates the watch terms in the model
+// ((get-value ...) on names w!0, w!1, ...).
+func (b *TermBank) ScriptWatch(asserts []*Term, extraDecls string, getModel bool, watch []*Term) string {
 	// collect reachable terms, reference counts, constants and functions
 	refs := map[*Term]int{}
 	hasBound := map[*Term]bool{}
@@ -750,6 +756,9 @@ func (b *TermBank) Script(asserts []*Term, extraDecls string, getModel bool) str
 		return hb
 	}
 	for _, a := range asserts {
+		visit(a)
+	}
+	for _, a := range watch {
 		visit(a)
 	}
 	var sb strings.Builder
@@ -806,9 +815,21 @@ func (b *TermBank) Script(asserts []*Term, extraDecls string, getModel bool) str
 		a.write(&sb, names)
 		sb.WriteString(")\n")
 	}
+	for i, wt := range watch {
+		fmt.Fprintf(&sb, "(define-fun w!%d () %s ", i, wt.Sort)
+		wt.write(&sb, names)
+		sb.WriteString(")\n")
+	}
 	sb.WriteString("(check-sat)\n")
 	if getModel {
 		sb.WriteString("(get-model)\n")
+	}
+	if len(watch) > 0 {
+		sb.WriteString("(get-value (")
+		for i := range watch {
+			fmt.Fprintf(&sb, "w!%d ", i)
+		}
+		sb.WriteString("))\n")
 	}
 	return sb.String()
 }
